@@ -63,7 +63,7 @@ CHECKS = {
          "model in checks/c14 (chains <=3 must be followed, longer ones may be abandoned; loops end in fallback or error); mixed alias/service RRsets excluded", "§3 C14"),
  "C16": ("model_checking", "E4 hist + E3 gosched",
          "history enumeration against a map-based cache model (virtual clock, in-memory DoH, every history up to the depth bound) + controlled-scheduler exploration of concurrent lookups + deterministic write-footprint oracle",
-         "Every history of length 7 (thorough 8) over 9 events (two lookups, four clock advances, zone version change, two failure toggles) is replayed on a fresh Resolver and compared with the model's per-key prediction of upstream queries and admissible content versions; concurrent lookups on colliding keys are explored under the controlled scheduler; Targets/Resolve on shared results are checked byte-for-byte for writes into shared memory.",
+         "Every history of length 6 (thorough 8) over 10 events (two lookups, four clock advances, zone version change, three failure toggles) is replayed on a fresh Resolver and compared with the model's per-key prediction of upstream queries and admissible content versions; concurrent lookups on colliding keys are explored under the controlled scheduler; Targets/Resolve on shared results are checked byte-for-byte for writes into shared memory.",
          "clock/transport owned via verif hooks; responses without records carry no TTL bound; plain data races are covered by the footprint oracle and a supplementary (sampled, not counted) free-running -race pass in the thorough tier", "§3 C16"),
  "C20": ("model_checking", "E4 hist + E2 envx + cfmem",
          "history enumeration of publishes against a map-based model over an in-memory fake of the Cloudflare API; API failures as single deviations at every request index",
